@@ -21,13 +21,18 @@ PINNED-TREE DEFECTS (DESIGN §4 row 19) — all three confirmed end-to-end by th
   3. body: only Content-Length is checked and the reader is not wrapped, so a chunked body of any size
      is buffered and forwarded.  `C17_no_oversize_forwarded_fixed` / `_partial` (length announced) /
      `C17_chunked_bypass_witness`.
-When fixes/C17-*.patch are applied set `activeKey := .clientIP`, `activeRefusal := .fixed`,
-`activeBody := .readerWrapped` in Model/Admission.lean; the `_active` theorems below keep compiling
+  4. (found while building the harness) guard: the Anthropic translator route is registered as a plain
+     route, so WireUpWithSecurityChain mounts no chain on it: translated requests are not rate limited
+     at all.  `C17_forwarding_routes_guarded_fixed` / `C17_translator_unguarded_witness`.
+When fixes/C17-mount-validator-middlewares.patch is applied set `activeKey := .clientIP`,
+`activeRefusal := .fixed`, `activeBody := .readerWrapped`; when fixes/C17-guard-translator-route.patch
+is applied set `activeGuard := .proxyAndTranslator` (all in Model/Admission.lean); the `_active` theorems below keep compiling
 (their hypotheses become trivially true) and the driver's model then expects the repaired behaviour.
 -/
 import Olla.Model.Bucket
 import Olla.Model.Admission
 import Olla.Spec.C17
+import Olla.Gen.Security
 
 namespace Olla.Props.C17
 open Olla.Model.Bucket Olla.Model.Admission Olla.Spec.C17
@@ -538,9 +543,40 @@ theorem C17_anthropic_413 (max actual : Nat) :
 
 /-! ### Which routes are guarded -/
 
-/-- The chain is mounted on the proxy routes and on nothing else (WireUpWithSecurityChain). -/
-theorem chain_mounted_on_proxy_only : ∀ r, chainMounted r = true ↔ r = .proxy := by
-  intro r; cases r <;> simp [chainMounted]
+/-- **Repaired tree: every route that forwards client requests to a backend is behind the chain**, and
+    nothing else is. -/
+theorem C17_forwarding_routes_guarded_fixed : ∀ r, chainMounted .proxyAndTranslator r = forwards r := by
+  intro r; cases r <;> rfl
+
+/-- Any variant: the proxy routes are guarded, the internal routes are not. -/
+theorem C17_proxy_routes_guarded (g : GuardVariant) :
+    chainMounted g .proxy = true ∧ chainMounted g .internal = false := by
+  cases g <;> exact ⟨rfl, rfl⟩
+
+/-- **Pinned-tree counterexample**: the translator route forwards requests but is not guarded, so the
+    per-IP bound of `C17_per_ip_bound_*` (a statement about guarded routes) does not cover it. -/
+theorem C17_translator_unguarded_witness :
+    ¬ (∀ r, forwards r = true → chainMounted .proxyOnly r = true) := by
+  intro h; exact absurd (h .translator rfl) (by decide)
+
+/-! ### The regenerated facts agree with the variants the model is set to -/
+
+/-- What the compiled middleware that the production wiring mounts does — status of a rate-limit
+    refusal, status of an oversize Content-Length, "a second connection gets a fresh bucket", "a chunked
+    body is cut off at the maximum" (measured by gen_security on every run) — is what the model's active
+    variants say.  If a fix lands and the variants are not flipped (or a refactor changes any of the
+    four), this obligation breaks by name. -/
+theorem gen_mounted_matches_model :
+    Olla.Gen.Security.mounted =
+      (refusalStatus activeRefusal .rateLimited, refusalStatus activeRefusal .bodyTooLarge,
+       decide (activeKey = .remoteAddr), decide (activeBody = .readerWrapped)) := by decide
+
+/-- The route table guards exactly what `chainMounted` says: the catch-all and provider proxy routes
+    are IsProxy, the translator route and /internal/health are not. -/
+theorem gen_route_guard_matches_model :
+    Olla.Gen.Security.routeGuard.map (fun r => (r.2.1, r.2.2)) =
+      [(true, chainMounted activeGuard .proxy), (true, chainMounted activeGuard .proxy), (true, chainMounted activeGuard .proxy),
+       (true, chainMounted activeGuard .translator), (true, chainMounted activeGuard .internal)] := by decide
 
 /-! ### Non-vacuity -/
 
